@@ -9,6 +9,7 @@ import Driver.Parser
 import Driver.Path
 import Driver.Annotations
 import Driver.Names
+import Driver.Version
 open Lean
 
 def dispatch (j : Json) : Except String Json := do
@@ -18,6 +19,7 @@ def dispatch (j : Json) : Except String Json := do
   | "path" => Driver.Path.handle j
   | "annot" => Driver.Annotations.handle j
   | "names" => Driver.Names.handle j
+  | "version" => Driver.Version.handle j
   | _ => throw s!"unknown stream {stream}"
 
 partial def loop (hin hout : IO.FS.Stream) : IO Unit := do
